@@ -1,10 +1,12 @@
 import TunnoxModel.Driver.Util
 import TunnoxModel.Model.C13
 import TunnoxModel.Spec.C13
+import TunnoxModel.Spec.C13Alias
 /-!
   C13 line protocol.
 
-  case  := ("mem" | "red") item*            sequential history (memory / Redis backend)
+  case  := "alias" aitem*                    sequential list history with held answers (memory backend)
+         | ("mem" | "red") item*            sequential history (memory / Redis backend)
          | "sched" idx* "/" prog (";" prog)*   gated schedule of concurrent callers (memory)
          | "conc" prog (";" prog)*          free-running concurrent callers (memory)
          | "hammer" …                        crash/race stress, expected observation `ok`
@@ -123,8 +125,39 @@ def burstNow : Nat := 1000
 def renderThreads (rs : List (List String)) : String :=
   " ; ".intercalate (rs.map (fun r => " ".intercalate r))
 
+/-- `alias` items: setlc k extra n a… | hold r k | peek r | setlr k r | getl k | app k a | rem k a | del k -/
+def parseAliasItem (ts : List String) : Option (Alias.LOp × List String) :=
+  match ts with
+  | "setlc" :: k :: e :: n :: r =>
+    match e.toNat?, n.toNat? with
+    | some e, some n =>
+      match takeN n r with
+      | some (as, r') => (as.mapM parseAtom).map (fun as => (.setList (parseKey k) as e, r'))
+      | none => none
+    | _, _ => none
+  | "hold" :: r :: k :: rest => r.toNat?.map (fun r => (.hold r (parseKey k), rest))
+  | "peek" :: r :: rest => r.toNat?.map (fun r => (.peek r, rest))
+  | "setlr" :: k :: r :: rest => r.toNat?.map (fun r => (.setListFrom (parseKey k) r, rest))
+  | "getl" :: k :: rest => some (.getList (parseKey k), rest)
+  | "app" :: k :: a :: rest => (parseAtom a).map (fun a => (.append (parseKey k) a 0, rest))
+  | "rem" :: k :: a :: rest => (parseAtom a).map (fun a => (.remove (parseKey k) a, rest))
+  | "del" :: k :: rest => some (.delete (parseKey k), rest)
+  | _ => none
+
+def parseAlias : Nat → List String → Option (List Alias.LOp)
+  | _, [] => some []
+  | 0, _ => none
+  | fuel + 1, ts =>
+    match parseAliasItem ts with
+    | some (op, r) => (parseAlias fuel r).map (op :: ·)
+    | none => none
+
 def runModel (ts : List String) : String :=
   match ts with
+  | "alias" :: rest =>
+    match parseAlias (rest.length + 1) rest with
+    | some ops => " ".intercalate ((Alias.run .repaired ops Alias.St.empty).map Alias.renderL)
+    | none => "bad-case"
   | "mem" :: rest =>
     match parseHistory rest with
     | some h => " ".intercalate ((C13.run h FMap.empty).map Spec.render)
@@ -148,6 +181,10 @@ def runModel (ts : List String) : String :=
 
 def runHolds (caseToks obsToks : List String) : String :=
   match caseToks with
+  | "alias" :: rest =>
+    match parseAlias (rest.length + 1) rest with
+    | some ops => boolStr (Alias.holdsAlias ops obsToks)
+    | none => "false"
   | "mem" :: rest =>
     match parseHistory rest with
     | some h => boolStr (Spec.holdsSeq h obsToks)
